@@ -392,15 +392,46 @@ type rewriter struct {
 	errs    []string
 	count   int
 	stats   map[string]int
+	siteCount map[string]int
 }
 
 func (r *rewriter) errf(pos token.Pos, f string, a ...any) {
 	r.errs = append(r.errs, fmt.Sprintf("%s: %s", r.fset.Position(pos), fmt.Sprintf(f, a...)))
 }
 
+// site ids are "file:line|Func#k": the part after '|' is stable under edits elsewhere in the file.
 func (r *rewriter) site(pos token.Pos) ast.Expr {
 	p := r.fset.Position(pos)
-	return &ast.BasicLit{Kind: token.STRING, Value: strconv.Quote(fmt.Sprintf("%s:%d", r.relFile, p.Line))}
+	fn := r.funcAt(pos)
+	if r.siteCount == nil {
+		r.siteCount = map[string]int{}
+	}
+	r.siteCount[fn]++
+	return &ast.BasicLit{Kind: token.STRING, Value: strconv.Quote(fmt.Sprintf("%s:%d|%s#%d", r.relFile, p.Line, fn, r.siteCount[fn]))}
+}
+
+func (r *rewriter) funcAt(pos token.Pos) string {
+	for _, d := range r.file.Decls {
+		fd, ok := d.(*ast.FuncDecl)
+		if !ok || pos < fd.Pos() || pos > fd.End() {
+			continue
+		}
+		name := fd.Name.Name
+		if fd.Recv != nil && len(fd.Recv.List) > 0 {
+			t := fd.Recv.List[0].Type
+			if st, ok := t.(*ast.StarExpr); ok {
+				t = st.X
+			}
+			if ix, ok := t.(*ast.IndexExpr); ok {
+				t = ix.X
+			}
+			if id, ok := t.(*ast.Ident); ok {
+				name = id.Name + "." + name
+			}
+		}
+		return name
+	}
+	return "init"
 }
 
 func vrtSel(name string) ast.Expr {
